@@ -648,7 +648,8 @@ func (streamSetSelf *StreamSetForInterfaceDef) Intersection(input *StreamSetForI
 // MinusStreams Minus the Stream values by their keys(keys will not be changed but Stream values will)
 func (streamSetSelf *StreamSetForInterfaceDef) MinusStreams(input *StreamSetForInterfaceDef) *StreamSetForInterfaceDef {
 	if input == nil || input.Size() == 0 {
-		return NewStreamSetForInterface()
+		// Nothing to subtract: keys and Stream values stay as they are
+		return streamSetSelf.Clone()
 	}
 
 	result := streamSetSelf.Clone()
